@@ -405,12 +405,12 @@ func TestC11Hostile(t *testing.T) {
 				judge(t, x.Rmdir(d, name))
 			case 5:
 				other := g.DirRef(t)
+				if d.N != nil && rapid.IntRange(0, 9).Draw(t, "existing_source") < 7 {
+					name = g.OldName(t, d.N) // an existing entry moved to a hostile name
+				}
 				if x.RenameIsKnownFinding(d.N, name, other.N) {
 					excluded++
 					other = d
-				}
-				if d.N != nil && rapid.IntRange(0, 9).Draw(t, "existing_source") < 7 {
-					name = g.OldName(t, d.N) // an existing entry moved to a hostile name
 				}
 				to := genHostileName(t)
 				if d.N != nil && d.N.Children[name] != nil && len(to) > 112 {
